@@ -206,12 +206,28 @@ func rm2SourceInfoModeConfinement(w *World) {
 		}
 	}
 	inspectAll(func(x ast.Node) bool {
-		ifs, ok := x.(*ast.IfStmt)
-		if !ok {
-			return true
-		}
 		check := func(cond ast.Expr, body *ast.BlockStmt) {
-			if !strings.Contains(types.ExprString(cond), "SourceInfoNone") {
+			// the guard must be the mode test itself (`mode == SourceInfoNone`, a `case
+			// SourceInfoNone` of a switch on the mode, or a disjunction containing one): a
+			// conjunction with a further restriction strips only some input forms
+			var isNoneTest func(e ast.Expr) bool
+			isNoneTest = func(e ast.Expr) bool {
+				e = ast.Unparen(e)
+				switch t := e.(type) {
+				case *ast.BinaryExpr:
+					if t.Op == token.EQL {
+						return strings.HasSuffix(types.ExprString(t.X), "SourceInfoNone") || strings.HasSuffix(types.ExprString(t.Y), "SourceInfoNone")
+					}
+					if t.Op == token.LOR {
+						return isNoneTest(t.X) || isNoneTest(t.Y)
+					}
+					return false
+				case *ast.Ident, *ast.SelectorExpr:
+					return strings.HasSuffix(types.ExprString(e), "SourceInfoNone")
+				}
+				return false
+			}
+			if !isNoneTest(cond) {
 				return
 			}
 			for _, st := range body.List {
@@ -221,6 +237,17 @@ func rm2SourceInfoModeConfinement(w *World) {
 					}
 				}
 			}
+		}
+		// the switch form: `switch { case mode == SourceInfoNone: … }` or `switch mode { case SourceInfoNone: … }`
+		if cc, ok := x.(*ast.CaseClause); ok {
+			for _, e := range cc.List {
+				check(e, &ast.BlockStmt{List: cc.Body})
+			}
+			return true
+		}
+		ifs, ok := x.(*ast.IfStmt)
+		if !ok {
+			return true
 		}
 		check(ifs.Cond, ifs.Body)
 		if ei, ok := ifs.Else.(*ast.IfStmt); ok {
